@@ -76,6 +76,18 @@ def provenance(ctx, rep, clause):
                         val = rounds[0]
             if val is not None:
                 val = cn.resolve(val)     # a local, or a small helper that rounds the sum, is read through
+            # a value staged in a local dict (`shifts[i] = round(...)` ... `for i, shift in shifts.items(): add(i, shift)`)
+            if isinstance(val, ast.Name):
+                for kind, payload in cn.bindings.get(val.id, []):
+                    if kind == 'each' and payload[1] == (1,) and isinstance(payload[0], ast.Call) and \
+                            isinstance(payload[0].func, ast.Attribute) and payload[0].func.attr == 'items' and \
+                            isinstance(payload[0].func.value, ast.Name):
+                        d_ = payload[0].func.value.id
+                        stored = [a.value for a in walk_own(f.node) if isinstance(a, ast.Assign) and
+                                  isinstance(a.targets[0], ast.Subscript) and norm_stmt(a.targets[0].value) == d_]
+                        stored = [cn.resolve(x) for x in stored]
+                        if stored and all(norm_stmt(x) == norm_stmt(stored[0]) for x in stored):
+                            val = stored[0]
             ok = isinstance(val, ast.Call) and isinstance(val.func, ast.Name) and val.func.id == 'round'
             ob(rep, 'PROV', FQ, f'`{norm_stmt(n)[:70]}` writes a rounded number', ok, 'round(<mass>, precision)',
                f'`{norm_stmt(n)[:70]}` writes something that is not the result of round(...): the output may '
